@@ -2,7 +2,7 @@
 C16 driver: runs the tokenizer model on one case.
 
 plain case : {"bytes": "<hex>" [, "ctx": "<ASCII context tag>"] [, "cdata": bool]}   -> {"m": OBS}
-             (ctx: Tokenizer::new_fragment, lower-cased here; cdata: allow_cdata)
+             (ctx: Tokenizer::new_fragment, lower-cased here, non-ASCII characters -> byte 255; cdata: allow_cdata)
 block case : {"exh": true, "pre": "<hex>", "alpha": "<hex>", "len": L, "lo": a, "n": c [, "expand": true]}
              = the strings  pre ++ w  for the a-th .. (a+c-1)-th word w of length L over alpha
              (base-|alpha| digits, most significant first)
@@ -138,7 +138,10 @@ def handle (j : Json) : Except String Json := do
     let ctx ← Drv.optStr? j "ctx"
     let cdata := (← Drv.optBool? j "cdata").getD true
     let t0 := match ctx with
-      | some c => Tokenizer.newFragment bytes.toArray (c.toList.map fun (ch : Char) => lowerByte ch.toNat)
+      -- `context_tag.to_lowercase()`: ASCII lower-casing; a non-ASCII character becomes the byte 255, which is in no name
+      -- (no non-ASCII character lower-cases into one of the ten ASCII names; the harness checks that side directly)
+      | some c => Tokenizer.newFragment bytes.toArray
+          (c.toList.map fun (ch : Char) => if ch.toNat < 128 then lowerByte ch.toNat else 255)
       | none => Tokenizer.new bytes.toArray
     return Json.mkObj [("m", (observeFrom (t0.setAllowCdata cdata)).1)]
 
